@@ -24,6 +24,8 @@ pub enum Step {
     SetDraining(bool),
     /// many TALKREQs at once (to fill the event channel while not draining)
     Burst { from: u8, n: u8 },
+    /// (virtual) time passes while the application holds what it holds
+    Wait { ms: u32 },
 }
 
 #[derive(Clone, Debug, PartialEq, Eq, Hash, Serialize, Deserialize)]
@@ -164,6 +166,12 @@ async fn run(case: &Case, rep: &mut CaseReport) -> Option<(String, String)> {
                 }
                 fates.insert(k, if deliverable { Fate::Held } else { Fate::Undeliverable });
             }
+            Step::Wait { ms } => {
+                tokio::time::sleep(std::time::Duration::from_millis(*ms as u64)).await;
+                if *ms >= 1000 && fates.values().any(|f| matches!(f, Fate::Held)) {
+                    rep.class("request-held-across->=1s-of-virtual-time");
+                }
+            }
             Step::Burst { from, n } => {
                 for _ in 0..*n {
                     let k = inject(&mut s, *from, 8, vec![1], &mut counter);
@@ -276,6 +284,7 @@ impl Property for C20 {
             1 => any::<u16>().prop_map(|sel| Step::DropOnOtherThread { sel }),
             1 => any::<bool>().prop_map(Step::SetDraining),
             1 => (0u8..4, prop_oneof![Just(5u8), Just(110u8)]).prop_map(|(from, n)| Step::Burst { from, n }),
+            2 => prop_oneof![1u32..200, 200u32..3000, 3000u32..20000, Just(60_000u32)].prop_map(|ms| Step::Wait { ms }),
         ];
         (prop_oneof![5 => Just(true), 1 => Just(false)], proptest::collection::vec(step, 1..20), any::<bool>(), 0u8..16, 0u8..16, prop_oneof![3 => Just(false), 1 => Just(true)])
             .prop_map(|(register_events, steps, respond_after_shutdown, known, moved, dual)| Case { register_events, steps, respond_after_shutdown, known, moved, dual })
@@ -290,7 +299,7 @@ impl Property for C20 {
         rep
     }
     fn rule() -> String {
-        "a real Discv5 service with a scripted handler; scripts of 1..19 steps: TALKREQs (ids of 2..8 bytes, 4 source nodes) (each source node known to the service as a routing-table member or not; its requests coming from the socket its record advertises or from another one; IPv4 or dual-stack service with records advertising both families) injected while an event stream is registered / not registered / not being read so that it fills up (bursts of 110), the application responding to, dropping, dropping on another thread, or holding the delivered request objects in any order; finally shutdown (service exit, handler end closed) followed by respond / drop of everything still held. After every step: a request that was responded to has exactly one TALKRESP with that payload to its source node address, a dropped or undeliverable one exactly one empty TALKRESP, a held one none, and no TALKRESP exists for anything else; after shutdown respond returns ChannelClosed and drop does not panic. Non-trivial = >=2 requests with different fates at the same time, or a release after shutdown.".into()
+        "a real Discv5 service with a scripted handler; scripts of 1..19 steps: TALKREQs (ids of 2..8 bytes, 4 source nodes) (each source node known to the service as a routing-table member or not; its requests coming from the socket its record advertises or from another one; IPv4 or dual-stack service with records advertising both families) injected while an event stream is registered / not registered / not being read so that it fills up (bursts of 110), the application responding to, dropping, dropping on another thread, or holding the delivered request objects in any order, also across 1 ms .. 60 s of (virtual) time; finally shutdown (service exit, handler end closed) followed by respond / drop of everything still held. After every step: a request that was responded to has exactly one TALKRESP with that payload to its source node address, a dropped or undeliverable one exactly one empty TALKRESP, a held one none, and no TALKRESP exists for anything else; after shutdown respond returns ChannelClosed and drop does not panic. Non-trivial = >=2 requests with different fates at the same time, or a release after shutdown.".into()
     }
     fn assumptions() -> Vec<String> {
         vec!["request ids are unique per source within a script (the ledger is keyed by (node address, id))".into()]
